@@ -440,7 +440,11 @@ class SimpleFormula(
     def __setitem__(self, key: slice, value: Iterable[Term]) -> None: ...
 
     def __setitem__(self, key, value):  # type: ignore
-        self.__validate_terms([value])
+        if isinstance(key, slice):
+            value = list(value)
+            self.__validate_terms(value)
+        else:
+            self.__validate_terms([value])
         self.__terms[key] = value
         self._reorder()
 
